@@ -31,6 +31,7 @@ type FloatV float64
 type StrV struct {
 	N *Term   // length, 64-bit
 	B []*Term // bytes (8-bit terms); indexes >= N are don't-care
+	Doc *JDocV // non-nil: the string is the serialisation of a J2 document (B is then empty)
 }
 
 type StructV struct{ F []Value }
